@@ -15,3 +15,4 @@ import CheetahModel.Properties.C13
 #print axioms C13.statement_last_use_wins
 #print axioms C13.line_expansion
 #print axioms C13.wildcard_semantics
+#print axioms C13.statement_define_element
